@@ -130,7 +130,7 @@ def bounded(res):
                             'dicts over keys {a,b} with nested values; strings of <=3 lines over 10 line shapes incl. \\r, \\x0b; '
                             'typed scalar pairs (True/1/1.0); random nested documents with 1-3 random edits (seeded). '
                             'non-trivial = a and b serialise differently; distinct by canonical JSON')
-    res.coverage['bounded_note'] = 'BOUNDED stand-in for the parts of the property not under a discharged contract (dict and string differs, the dispatcher); never counted as proved'
+    res.coverage['bounded_note'] = 'BOUNDED stand-in for the parts of the property not under a discharged contract (the string differ and patcher are under ASSUMED contracts; the table contracts on registered differs/predicates are preconditions); never counted as proved'
 
 
 def kit_s_part(res):
@@ -166,8 +166,10 @@ def run(res):
     bounded(res)
     res.coverage['explanation'] = (
         'Proof part: %d obligations generated from the current source of %d real functions (and lemmas) under sidecar contracts, '
-        '%d discharged; theorem chain: diff_sequence_bruteforce gives a well-formed aligned shallow diff for ANY predicate, '
-        'diff_lists turns it into a diff with apply_seq(a, result) == b under the table contracts, patch_list(obj, d) == apply_seq(obj, d). '
+        '%d discharged; theorem chain: diff_sequence_bruteforce gives a well-formed aligned shallow diff for ANY predicate; diff_lists / diff_dicts / '
+        'compute_diff_from_snakes (with the proved snake computation) turn alignments into diffs with apply(a, result) == b that are well formed all the way down; '
+        'the dispatcher diff gives apply_v(a, result) == b and wf_v(a, result); patch_list / patch_dict / patch compute exactly apply_seq / apply_map / apply_v; '
+        'lemma roundtrip_generic composes the two contracts: patch(a, diff(a, b)) == b. Strings: assumed functional contracts, discharged interface obligations. '
         'Bounded part: the public diff/patch API against the independent documented-format oracle on %d pairs.'
         % (res.obligations, len(KIT_L), res.discharged, res.evaluations))
 
